@@ -208,9 +208,11 @@ def _wiring(U):
             return rnp.zeros((2, 2, 3))
 
         def d2H(k):
+            seen.append(("d2H", rnp.array(k, dtype=float)))
             return rnp.zeros((2, 2, 3, 3))
 
         def d3H(k):
+            seen.append(("d3H", rnp.array(k, dtype=float)))
             return rnp.zeros((2, 2, 3, 3, 3))
         me = types.SimpleNamespace()
 
@@ -237,9 +239,12 @@ def _wiring(U):
                  and (analytic != 0 or (made[0].function == me.Ham and made[1].function is made[0] and made[2].function is made[1] and me.derHam is made[0] and me.der2Ham is made[1] and me.der3Ham is made[2]))
                  and (analytic != 1 or (made[0].function == me.derHam and made[1].function is made[0] and me.der2Ham is made[0] and me.der3Ham is made[1])))
         if analytic >= 1:
-            del seen[:]
-            me.derHam(kq)
-            U.ensure("a supplied derivative receives the same folded / converted k", len(seen) == 1 and seen[0][0] == "dH" and rnp.allclose(seen[0][1], folded.dot(R) if cart else folded))
+            ok = True
+            for tag, fun in [("dH", me.derHam)] + ([("d2H", me.der2Ham), ("d3H", me.der3Ham)] if analytic == 2 else []):
+                del seen[:]
+                fun(kq)
+                ok = ok and len(seen) == 1 and seen[0][0] == tag and bool(rnp.allclose(seen[0][1], folded.dot(R) if cart else folded))
+            U.ensure("every supplied derivative (first, second, third) receives the same folded / converted k as the Hamiltonian", ok)
         U.ensure("the *_cart variants convert Cartesian k back to reduced coordinates first", rnp.allclose(me.k_cart2red(folded.dot(R)), folded))
     U.run(body, check_feasible=False)
 
